@@ -45,6 +45,23 @@ structure Stmt where
   authLog : Bool           -- signatureVerification.override sets authenticity to `log`
   deriving DecidableEq, Repr, FromJson, ToJson
 
+/-- An edit a CALLER made, earlier in the history of the same verifier, to a statement that the
+verifier's own policy document HANDED OUT: `OCIDocument.GetApplicableTrustPolicy`,
+`BlobDocument.GetApplicableTrustPolicy` and `BlobDocument.GetGlobalTrustPolicy` are exported and
+documented to return a deep copy, so whoever asks (an inspection / "what if" / display /
+normalisation component of the same process) may write into what it got - into the elements of
+its slices, into its override map, into its fields. Such an edit is an edit of the COPY: the
+document the verifier holds (and validated at construction) still reads `Input.statements`. -/
+structure CopyEdit where
+  doc : String             -- document the copy came from: "oci" | "blob"
+  via : String             -- accessor: "GetApplicableTrustPolicy" | "GetGlobalTrustPolicy"
+  stmt : Nat               -- index (in that document) of the statement the copy was taken of
+  field : String           -- "trustStores" | "registryScopes" | "trustedIdentities" | "override" | "level" | "name" | "globalPolicy"
+  how : String             -- "element" (in-place write of one / every element) | "reslice" (append to [:0]) |
+                           -- "append" | "assign" | "sort" | "mapSet" | "mapDelete"
+  values : List Text       -- what the copy's field reads afterwards
+  deriving DecidableEq, Repr, FromJson, ToJson
+
 structure Input where
   scheme : Scheme
   chain : List CertId      -- the signature's certificate chain, leaf first
@@ -76,6 +93,10 @@ structure Input where
                            -- nothing - in particular not the global statement)
                            -- | "load" (concurrency stage: a direct GetCertificates on the real store, recorded
                            -- as the verification of a chain made of exactly what that store must return)
+  copyEdits : List CopyEdit -- MUST NOT MATTER: what callers wrote, before this verification, into statements the
+                           -- verifier's documents handed out as deep copies (see `CopyEdit`). The applicable
+                           -- statement is the one of the DOCUMENT (`statements`), whatever became of any copy
+                           -- of it: `run` and `clauses` never read this field.
   history : List String    -- MUST NOT MATTER: the verifications the SAME verifier instance (and the same
                            -- trust store object) performed before this one - other scheme, other chain,
                            -- other statement, the same statement name in the other document kind, the
